@@ -391,6 +391,18 @@ func vUniInvokeCase(r *vRand) {
 				Info: map[string]interface{}{"first_call": evs, "first_result": res, "outcome": outcome}})
 		}
 		st.mu.Lock()
+		// the connection the further call wrote to first is the one the model says the client holds after the first call
+		// (only the events the first call consumed count)
+		if outcome == "" && fail == "" && st.misuse == "" {
+			for _, t := range st.trace[len(firstTrace):] {
+				var id int
+				if n, _ := fmt.Sscanf(t, "OWrite %d", &id); n == 1 {
+					vEmit(vCase{Class: "invoke-again", Coq: fmt.Sprintf("CAgain %s %d", vCoqList(evs[:firstPos]), id), Sig: "again-conn/" + strings.Join(evs[:firstPos], ";"),
+						Info: map[string]interface{}{"first_call": evs[:firstPos], "outcome": fmt.Sprintf("next call writes to connection %d", id)}})
+					break
+				}
+			}
+		}
 		st.trace, st.pos = firstTrace, firstPos
 		st.mu.Unlock()
 	}()
